@@ -1132,6 +1132,24 @@ impl RelationalSlab {
         Ok(result)
     }
 
+    /// Get the number of row slots (live and deleted) of a table together with its
+    /// alive bitmap packed as 64-bit words.
+    ///
+    /// Column accessors such as [`Self::get_int_column`] return one value per slot,
+    /// so bitmaps combined with their results must be sized by this slot count,
+    /// not by the live row count.
+    ///
+    /// # Errors
+    ///
+    /// Returns an error if the table does not exist.
+    pub fn alive_bitmap(&self, table: &str) -> Result<(usize, Vec<u64>), RelationalError> {
+        let tables = self.tables.read();
+        let storage = tables
+            .get(table)
+            .ok_or_else(|| RelationalError::TableNotFound(table.to_string()))?;
+        Ok((storage.alive.len(), storage.alive_as_words()))
+    }
+
     /// Get an integer column's raw data along with alive and null bitmaps.
     ///
     /// Returns `(values, alive_bitmap_words, null_bitmap_words)` where bitmaps
